@@ -126,12 +126,14 @@ def strategy(tier: str):
 
     def _mode(pair):
         case, mode = pair
+        if mode == "warnings":
+            return {**case, "warnings": "error"}
         return {**case, mode: True} if mode else case
 
     return st.tuples(base, st.sampled_from((None, None, None, None, "debug_log", "prior_session"))).map(_mode)
 
 
-def enumerate_cases(tier: str):
+def _enumerate_base(tier: str):
     for digits in (4300, 4301, 5000, 100000):
         big = "1" * digits
         for text in (big, "-" + big, f"[{big}]", '{"1": ' + big + "}", '{"1": {"node_id": ' + big + "}}",
@@ -151,6 +153,18 @@ def enumerate_cases(tier: str):
             yield {"kind": "content", "origin": "deep-valid", "data": '{"1": {"node_id": 1, "node_type": 17, "protocol_version": "2.0", "sketch_name": ' + inner + "}}"}
             yield {"kind": "content", "origin": "deep-valid", "data": '{"1": {"sensor_id": 1, "type": 17, "protocol_version": "2.0", "children": {"1": ' + inner + "}}}"}
             yield {"kind": "content", "origin": "deep-valid", "data": '{"1": {"node_id": 1, "node_type": 17, "protocol_version": "2.0", "children": {"1": {"child_id": 1, "child_type": 1, "values": {"1": ' + inner + "}}}}}"}
+    # number spellings whose exponent no number type holds (whatever type the loader parses numbers into), at every level of a record
+    for num in ("1e1000000000000000000", "1E-99999999999999999999", "-1e999999999999999999999", "1e5000", "-1e5000", "1.5e400", "1e-5000", "123456789e-400", "0e99999999999999999999",
+                "1e+99999999999999999999", "9" * 400 + ".5", "0." + "0" * 400 + "1", "1e308", "1e309", "-0.0", "-0", "5e-324", "1.0000000000000000000000001"):
+        for text in (num, f"[{num}]", '{"1": ' + num + "}", '{"1": {"node_id": ' + num + ', "node_type": 17, "protocol_version": "2.0"}}',
+                     '{"1": {"node_id": 1, "node_type": ' + num + ', "protocol_version": "2.0"}}', '{"1": {"node_id": 1, "node_type": 17, "protocol_version": ' + num + "}}",
+                     '{"1": {"node_id": 1, "node_type": 17, "protocol_version": "2.0", "battery_level": ' + num + "}}", '{"1": {"node_id": 1, "node_type": 17, "protocol_version": "2.0", "heartbeat": ' + num + "}}",
+                     '{"1": {"node_id": 1, "node_type": 17, "protocol_version": "2.0", "sleeping": ' + num + "}}",
+                     '{"1": {"node_id": 1, "node_type": 17, "protocol_version": "2.0", "children": {"1": {"child_id": ' + num + ', "child_type": 6}}}}',
+                     '{"1": {"node_id": 1, "node_type": 17, "protocol_version": "2.0", "children": {"1": {"child_id": 1, "child_type": ' + num + "}}}}",
+                     '{"1": {"node_id": 1, "node_type": 17, "protocol_version": "2.0", "children": {"1": {"child_id": 1, "child_type": 6, "values": {"0": ' + num + "}}}}}",
+                     '{"1": {"sensor_id": ' + num + ', "type": 17, "protocol_version": "2.0", "children": {}}}'):
+            yield {"kind": "content", "origin": "number-spelling", "data": text}
     for depth in (1000, 100000):
         yield {"kind": "content", "origin": "deep", "data": "[" * depth}
         yield {"kind": "content", "origin": "deep", "data": '{"1":' * depth}
@@ -244,6 +258,14 @@ def enumerate_cases(tier: str):
         yield {"kind": "content", "origin": "mutated", "data": json.dumps(doc)}
     for top in (None, 5, "x", [], [1], [{}], True, 1.5, {"1": 5}, {"1": None}, {"1": []}, {"1": {}}, {"x": fixture["1"]}, {"1": "node"}):
         yield {"kind": "content", "origin": "json", "data": json.dumps(top)}
+
+
+def enumerate_cases(tier: str):
+    for case in _enumerate_base(tier):
+        yield case
+        if case.get("origin") in ("mutated", "key-mismatch", "json", "modes") and "warnings" not in case and not case.get("debug_log") and not case.get("prior_session"):
+            # the same content in a process that turns warnings into errors (python -W error, pytest's filterwarnings = error)
+            yield {**case, "warnings": "error"}
 
 
 def run_case(case: dict) -> Outcome:
@@ -355,7 +377,7 @@ def run_case(case: dict) -> Outcome:
         return None
 
     try:
-        with env.debug_logging(bool(case.get("debug_log"))):
+        with env.debug_logging(bool(case.get("debug_log"))), env.strict_warnings(case.get("warnings") == "error"):
             bad = env.run(go())
     finally:
         shutil.rmtree(scratch, ignore_errors=True)
